@@ -85,9 +85,9 @@ var configs = map[string]*propConfig{
 	},
 	"C19": {
 		id: "C19", level: "exploration", checkptr: "1", plain: true,
-		quickRuns: 400000, thorRuns: 6000000,
+		quickRuns: 400000, thorRuns: 30000000, enumQuick: true, enumThor: true,
 		memKB: 4 << 20, quickWall: 60 * time.Second, thorWall: 10 * time.Minute, runTimeout: 20 * time.Second,
-		rule: "seeded histories of Set/Append/Add/Get/Count/First over a swarm-randomised alphabet of tags (incl. the nil tag and the empty tag) and texts, with initial contents nil / empty / literal / literal with spare capacity; plus seeded pairs of lists without repeated tags for Equals (copy, permutation, one text or tag changed, one entry dropped or added, independent). A case is the rendered operation sequence (or pair); distinct = distinct hash of it; non-trivial = the history contains at least one state-changing call, or (Equals) the two lists hold at least two entries in total.",
+		rule: "seeded histories of Set/Append/Add/Get/Count/First over a swarm-randomised alphabet of tags (incl. the nil tag and the empty tag) and texts, with initial contents nil / empty / literal / literal with spare capacity; plus seeded pairs of lists without repeated tags for Equals (copy, permutation, one text or tag changed, one entry dropped or added, independent); plus the bounded-exhaustive tier: every call sequence of length 1..L (L=4 quick, 5 thorough) over the 23-letter alphabet {Set, Append, Add} x {nil tag, en, empty tag} x {empty text, a} + Get x 3 tags + Count + First, from four initial lists (nil, empty, one entry, one entry with spare capacity). A case is the rendered operation sequence (or pair); distinct = distinct hash of it; non-trivial = the history contains at least one state-changing call, or (Equals) the two lists hold at least two entries in total.",
 		assumptions: []string{
 			"Append and Add append exactly one entry at the end (documented on Append); what Set does to later entries with the same tag is left open by the property and every behaviour satisfying its clauses is accepted",
 			"the container is used from one goroutine (documented as not safe for concurrent mutation); no fault or schedule dimension exists for this property (DESIGN.md §5)",
